@@ -1102,6 +1102,8 @@ def r14(ctx, rep):
         incs = [(i, st) for i, st in enumerate(stmts) if st.get("k") in ("assign_op",) and show(st.get("lhs", {})).startswith("self.")]
     rep.check(len(incs) == 1, "function-depth:counted", f"materialize_function counts the open function bodies (`self.<counter> += 1` at the top level; found {len(incs)})", line=f["l"], **loc)
     if len(incs) != 1:
+        rep.bad("function-depth:bounded", "materialize_function has no bound on the number of function bodies that are open at once: a function that calls itself "
+                "(`let f = x -> f x`) is resolved until the stack overflows", line=f["l"], **loc)
         return
     i_inc, inc = incs[0]
     counter = show(inc["lhs"])
